@@ -800,6 +800,46 @@ func (e *Env) evalQuant(n *spec.Quant) (SV, error) {
 		}
 		return SV{T: Term{fmt.Sprintf("(exists ((%s %s)) %s)", vn, ks, body.S), SBool}}, nil
 	}
+	if c, ok := n.Lo.(*spec.Call); ok && c.Fun == "elems" && n.Hi == nil {
+		// forall x in elems(s) :: P(x) -- the bound variable is an element of the slice s.  The SMT
+		// variable is the absolute cell index (offset of s .. offset + length), so the element is
+		// `row[m]` with no arithmetic in it: any cell read of that array instantiates the clause,
+		// whereas `s[k]` = `row[off + k]` is matched only by index terms of that exact shape.
+		if len(c.Args) != 1 {
+			return SV{}, fmt.Errorf("elems() takes one slice")
+		}
+		sv, err := e.eval(c.Args[0])
+		if err != nil {
+			return SV{}, err
+		}
+		st, ok := sv.Ty.Underlying().(*types.Slice)
+		if !ok {
+			return SV{}, fmt.Errorf("elems() of a non-slice")
+		}
+		if vc.tt.cells(st.Elem()) != 1 {
+			return SV{}, fmt.Errorf("elems(): element type %s occupies more than one cell", st.Elem())
+		}
+		m := Term{vn, SInt}
+		obj := SObj(sv.T)
+		cell := vc.load(e.state(), st.Elem(), obj, m)
+		inner := e.with(n.Var, SV{T: cell, Ty: st.Elem(), Loc: &Loc{obj, m, st.Elem()}})
+		body, err := inner.evalBool(n.Body)
+		if err != nil {
+			return SV{}, err
+		}
+		rng := And(Le(SOff(sv.T), m), Lt(m, Add(SOff(sv.T), SLen(sv.T))))
+		pat := ""
+		if !strings.Contains(cell.S, "(ite ") && !strings.Contains(cell.S, "(let ") && strings.HasPrefix(cell.S, "(select ") {
+			pat = cell.S
+		}
+		if n.Forall {
+			if pat != "" {
+				return SV{T: Term{fmt.Sprintf("(forall ((%s Int)) (! %s :pattern (%s)))", vn, Implies(rng, body).S, pat), SBool}}, nil
+			}
+			return SV{T: Term{fmt.Sprintf("(forall ((%s Int)) %s)", vn, Implies(rng, body).S), SBool}}, nil
+		}
+		return SV{T: Term{fmt.Sprintf("(exists ((%s Int)) %s)", vn, And(rng, body).S), SBool}}, nil
+	}
 	if c, ok := n.Lo.(*spec.Call); ok && c.Fun == "keys" && n.Hi == nil {
 		// the bound variable ranges over the keys present in a map (sort of the key type)
 		if len(c.Args) != 1 {
